@@ -46,7 +46,7 @@ def run_one(prop, m, keep_output=False):
         shutil.rmtree(d, ignore_errors=True)
 
 
-def battery(prop, only=None, jobs=4):
+def battery(prop, only=None, jobs=2):
     p = os.path.join(VERIF, 'mutants', f'{prop.lower()}.json')
     if not os.path.exists(p):
         return []
